@@ -4,7 +4,7 @@
    schedule.  The exclusivity of the lock is the model's assumption; the scheduled rig observes
    it on the real backends (and decides linearizability of the add-version handler, whose first
    request for a new client spans three transactions). *)
-From TSS Require Import Conc Sqlite AStore Http proofs.Atomic proofs.ConcLib proofs.UrgencyArith proofs.Agree proofs.Chain proofs.HttpReach proofs.ConcHttp ConcRig proofs.ConcRigProps.
+From TSS Require Import Conc Sqlite AStore Http proofs.Atomic proofs.ConcLib proofs.UrgencyArith proofs.Agree proofs.Chain proofs.HttpReach proofs.ConcHttp proofs.ConcLin proofs.Inv ConcRig proofs.ConcRigProps.
 From Coq Require Import Arith.
 Local Open Scope nat_scope.
 
@@ -113,6 +113,91 @@ Example C03_overlap_nonvacuous :
       (th (crun SqliteB hresp (init_sys SqliteB hresp sq_empty (handlers default_config None ex_reqs)) [0; 1; 1; 1; 1; 0; 0; 0; 2; 2]))
   = [Some 409; Some 200; Some 200]%N.
 Proof. exact conc_http_nonvacuous. Qed.
+
+(* (4') LINEARIZABILITY of overlapping HTTP requests, add-version's three transactions included.
+   For either backend k, ANY store d0 that represents an abstract store a0 satisfying the store
+   invariant (in particular every store reachable by requests, and the empty one), ANY number of
+   HTTP requests over any clients, ANY fine-grained schedule (one step per storage call): whenever
+   no transaction is open, and provided no AddSnapshot transaction began while its client existed
+   but held nothing (`wfree` — the creation window of finding F3, see (3); C03_window_not_wfree
+   shows the witness is excluded by exactly this hypothesis), the requests behave as if executed
+   ONE AT A TIME in the order `lin_order` (the order in which they ran their LAST transaction):
+     - that order has no repetitions;
+     - every request whose thread has finished is in it and got exactly the response the
+       one-at-a-time execution gives it;
+     - the committed store represents the store a that ordering leaves (a'), up to clients that
+       exist in a but hold nothing (created by an add-version still in flight) — and when all
+       requests have finished, a' and a hold the same clients with the same records. *)
+Theorem C03_linearizable : forall k cfg allow U0 a0 d0 reqs sch,
+  cfg_ok cfg -> Inv U0 a0 -> bk_rel k a0 d0 -> fresh_distinct U0 reqs ->
+  let s0 := init_sys (bk_backend k) hresp d0 (handlers cfg allow reqs) in
+  owner (frun (bk_backend k) hresp s0 sch) = None ->
+  wfree (bk_backend k) reqs s0 (csched (bk_backend k) hresp s0 sch) ->
+  linearized k cfg allow reqs d0 (frun (bk_backend k) hresp s0 sch)
+             (lin_order s0 (csched (bk_backend k) hresp s0 sch) []).
+Proof. exact lin_fine. Qed.
+
+(* the reading of `linearized`, `ext`, `wfree` is pinned here *)
+Example C03_linearized_reading : forall k cfg allow reqs d0 c order,
+  linearized k cfg allow reqs d0 c order <->
+  (let sr := seq_run (bk_backend k) hresp d0 (handlers cfg allow reqs) order in
+   NoDup order /\
+   (forall i r, nth_error (th c) i = Some (TDone r) -> In i order /\ resp_in hresp (fst sr) i = Some r) /\
+   exists a' a, bk_rel k a' (snd sr) /\ bk_rel k a (db c) /\ a_ok a' = true /\ a_ok a = true /\
+     (forall cl, a_cl a' cl = a_cl a cl \/ (a_cl a' cl = None /\ a_cl a cl = Some (mkCS nil_id None []))) /\
+     ((forall i t, nth_error (th c) i = Some t -> exists r, t = TDone r) -> forall cl, a_cl a' cl = a_cl a cl)).
+Proof. intros. reflexivity. Qed.
+Example C03_wfree_reading : forall B reqs (c : sys B hresp) i sch,
+  wfree B reqs c (i :: sch) <->
+  ((forall er cc t, nth_error reqs i = Some er -> as_client (snd er) = Some cc ->
+      nth_error (th c) i = Some t -> is_at_txn t = true ->
+      ~ fst (b_eff B _ EGetClient (b_begin B (db c) cc)) = Ok (Some (mkClient nil_id None))) /\
+   wfree B reqs (match cstep B hresp c i with Some c' => c' | None => c end) sch).
+Proof. intros. reflexivity. Qed.
+
+(* the order respects REAL TIME: if request i has been answered and its thread has retired at a
+   point of the schedule up to which request j has not been scheduled at all, then i precedes j
+   in the linearization order of every continuation of the schedule *)
+Theorem C03_linearization_respects_real_time : forall B R d reqs sch1 sch2 i j r,
+  let s0 := init_sys B R d reqs in
+  nth_error (th (frun B R s0 sch1)) i = Some (TDone r) -> ~ In j sch1 ->
+  exists l1 l2, lin_order s0 (csched B R s0 (sch1 ++ sch2)) [] = l1 ++ l2 /\ In i l1 /\ ~ In j l1.
+Proof. exact lin_fine_real_time. Qed.
+
+(* request sets without any AddSnapshot are window-free under every schedule *)
+Theorem C03_wfree_without_add_snapshot : forall B reqs sch,
+  (forall er, In er reqs -> as_client (snd er) = None) -> forall c, wfree B reqs c sch.
+Proof. exact wfree_no_as. Qed.
+
+(* the F3 witness of (3) is excluded by `wfree` and by nothing else in C03_linearizable *)
+Definition w_hreqs : list (env * hreq) := [(w_E0, w_av); (w_E1, w_as)].
+Example C03_window_not_wfree :
+  handlers w_cfg None w_hreqs = w_reqs /\ cfg_ok w_cfg /\ fresh_distinct [] w_hreqs /\
+  ~ wfree SqliteB w_hreqs (init_sys SqliteB hresp sq_empty w_reqs) [0; 0; 1; 0; 0; 1].
+Proof.
+  split; [reflexivity|]. split; [vm_compute; repeat split; intros H; discriminate H|]. split.
+  - split.
+    + cbn. repeat constructor; cbn; intros H; repeat (destruct H as [H|H]; try discriminate); auto.
+    + intros er Her. cbn in Her.
+      repeat (destruct Her as [Her|Her]; [subst er; cbn; repeat split; try discriminate;
+        intros H; repeat (destruct H as [H|H]; try discriminate); auto|]). contradiction.
+  - intros Hw. cbn [wfree] in Hw. destruct Hw as (_ & _ & Hw & _).
+    eapply (Hw (w_E1, w_as) 5%N); [reflexivity|reflexivity|vm_compute; reflexivity|reflexivity|vm_compute; reflexivity].
+Qed.
+
+(* non-vacuity of C03_linearizable: the racing add-versions of C03_overlap_nonvacuous (the first
+   spans three transactions and loses) are linearized in the order 1, 0, 2 *)
+Example C03_linearizable_nonvacuous :
+  (forall er, In er ex_reqs -> as_client (snd er) = None) /\
+  let s0 := init_sys SqliteB hresp sq_empty (handlers default_config None ex_reqs) in
+  lin_order s0 [0; 1; 1; 1; 1; 0; 0; 0; 2; 2] [] = [1; 0; 2] /\
+  map (fun p => (fst p, rs_status (snd p)))
+      (fst (seq_run SqliteB hresp sq_empty (handlers default_config None ex_reqs) [1; 0; 2]))
+  = [(1, 200%N); (0, 409%N); (2, 200%N)].
+Proof.
+  split; [intros er Her; cbn in Her; repeat (destruct Her as [Her|Her]; [subst er; reflexivity|]); contradiction|].
+  vm_compute. split; reflexivity.
+Qed.
 
 (* (5) the tie to the code: the function the scheduled rig's transaction schedules are replayed
    with on the extracted model (ConcRig.rig_run: run-one-transaction tokens, begin-while-held
